@@ -55,7 +55,8 @@ ASSUMPTIONS = [
 REQUIRED_COUNTERS = [
     "build_cases", "decodes:C->C", "decodes:C->Py", "decodes:Py->C", "decodes:Py->Py", "decodes:Ref->C",
     "decodes:Ref->Py", "ref_validations", "ref_decodes", "concat_cases", "concat_mixed_magic",
-    "concat_with_partial_tail", "size_checks", "limit_accept_checks", "limit_refuse_checks",
+    "concat_with_partial_tail", "concat_ok:C:same_magic", "concat_ok:Py:same_magic", "concat_ok:Py:mixed_magic",
+    "size_checks", "limit_accept_checks", "limit_refuse_checks",
 ]
 
 PY = "/venv/bin/python"
@@ -502,8 +503,8 @@ class Shard:
 
     # ---- comparison of one decode result against expected batches
     def compare(self, got, expected, ref_views=None):
-        """-> list of (field, detail); empty = equal."""
-        diffs = []
+        """-> list of (field, detail, batch index or None); empty = equal."""
+        diffs = _Diffs()
         if got.get("op_error"):
             return [("harness_exception:" + got["op_error"]["type"], str(got["op_error"]))]
         batches = got["batches"]
@@ -568,6 +569,17 @@ class Shard:
         if not err and got.get("tail") != (False, True):
             diffs.append(("tail_state", f"after the last batch (has_next(), next_batch() is None) = {got.get('tail')}"))
         return diffs
+
+
+class _Diffs(list):
+    """(field, detail, batch_index) triples; append((field, detail)) looks the index up in the detail text."""
+
+    def append(self, item):
+        if len(item) == 2:
+            import re
+            m = re.search(r"batch (\d+)", item[1])
+            item = (item[0], item[1], int(m.group(1)) if m else None)
+        super().append(item)
 
 
 def _short(x):
@@ -697,14 +709,15 @@ def check_bytes(sh: Shard, cid, case, impl, res, accepted, expected):
                      bytes_hex=buf[:160].hex())
         return None
     sh.count("ref_decodes")
-    got = dict(batches=[dict(cls=None, crc_ok=v.crc_ok, records=[
+    got = dict(batches=[dict(cls=None, crc_ok=v.crc_ok, is_control_batch=v.is_control,
+                             is_transactional=v.is_transactional, producer_id=None if v.magic < 2 else v.pid, records=[
         (r.offset, r.timestamp, v.timestamp_type, r.key, r.value, r.headers, None if v.magic >= 2 else r.crc)
         for r in v.records]) for v in views], error=None, tail=(False, True))
     exp = [{k: v for k, v in e.items() if k in ("magic", "records")} for e in expected]
     diffs = sh.compare(got, exp)
     if sum(v.length for v in views) != len(buf):
         diffs.append(("trailing_bytes", f"{len(buf) - sum(v.length for v in views)} bytes after the last batch"))
-    for fieldname, detail in diffs:
+    for fieldname, detail, _k in diffs:
         sh.violation(f"roundtrip:v{magic}:enc={impl}:dec=Ref:{fieldname}", detail, case=cid, impl=impl,
                      bytes_hex=buf[:160].hex())
     if magic == 2 and views:
@@ -825,12 +838,18 @@ def _run(sh: Shard, rng, tier, ext_dir, workdir, params):
     for i in range(n_concat if pieces else 0):
         k = rng.randint(2, 6)
         chosen = []
-        if len(by_magic) > 1 and rng.random() < 0.8:
-            magics = rng.sample(sorted(by_magic), 2)
-            chosen = [rng.choice(by_magic[magics[0]]), rng.choice(by_magic[magics[1]])]
-            rng.shuffle(chosen)
-            k -= 2
-        chosen += [rng.choice(pieces) for _ in range(k)]
+        if rng.random() < 0.4:
+            # scenario class "same magic": exercises the splitter and the partial tail independently of
+            # anything that depends on per-batch format selection
+            pool = by_magic[rng.choice(sorted(by_magic))]
+            chosen = [rng.choice(pool) for _ in range(k)]
+        else:
+            if len(by_magic) > 1:
+                magics = rng.sample(sorted(by_magic), 2)
+                chosen = [rng.choice(by_magic[magics[0]]), rng.choice(by_magic[magics[1]])]
+                rng.shuffle(chosen)
+                k -= 2
+            chosen += [rng.choice(pieces) for _ in range(k)]
         tail_kind = rng.choice(["none", "lt12", "header", "most", "minus1"])
         tail = b""
         if tail_kind != "none":
@@ -874,7 +893,7 @@ def _run(sh: Shard, rng, tier, ext_dir, workdir, params):
             sh.count(f"decodes:{enc}->{dec}")
             sh.count("records_decoded", sum(len(b["records"]) for b in got.get("batches", [])))
             diffs = sh.compare(got, expected, views)
-            for fieldname, detail in diffs:
+            for fieldname, detail, _k in diffs:
                 sh.violation(f"roundtrip:{label}:enc={enc}:dec={dec}:{fieldname}", detail, case=cid,
                              bytes_hex=_bytes_of(did, built, refenc)[:200].hex())
             if not diffs:
@@ -911,12 +930,14 @@ def _run(sh: Shard, rng, tier, ext_dir, workdir, params):
                 diffs.append(("size_in_bytes", f"{got.get('size_in_bytes')} != {len(cc['bytes'])}"))
             if not diffs:
                 ok += 1
+                sh.count(f"concat_ok:{dec}:" + ("mixed_magic" if mixed else "same_magic"))
                 continue
             mech = _concat_mechanism(dec, got, cc, diffs=diffs)
             sh.violation(mech, f"{dec} MemoryRecords over {len(cc['expected'])} valid batches (magics {cc['magics']}, "
                          f"tail {cc['tail']}): " + "; ".join(d[1] for d in diffs[:3]), case=cid, pieces=cc["pieces"],
                          tail=cc["tail"], decoder=dec, bytes_hex=cc["bytes"][:600].hex(), bytes_len=len(cc["bytes"]))
         if ok == 2:
+            sh.count("concat_ok_both_decoders:" + ("mixed_magic" if mixed else "same_magic"))
             sh.nontrivial.add(_sig(("concat", tuple(cc["pieces"]), cc["tail"])))
             if mixed and not any(s.get("kind") == "concatenation" for s in sh.samples):
                 sh.samples.append(dict(kind="concatenation", pieces=cc["pieces"], partial_tail=cc["tail"],
@@ -943,30 +964,33 @@ def _parsed_as(batch, err_for_batch):
 
 
 def _concat_mechanism(dec, got, cc, diffs=None, died=False):
-    """Narrow classifier for a MemoryRecords failure over concatenated valid batches."""
+    """Narrow classifier for a MemoryRecords failure over concatenated valid batches.
+
+    Every piece of a concatenation decodes correctly on its own (checked separately), so a failure here
+    is a defect of the splitter.  If the FIRST failing batch has a magic different from the first batch
+    of the buffer (and, where the batch class or the traceback is visible, was handed to the parser of
+    the first batch's format) the failure is classified as 'decoded with the first batch's magic'."""
     magics = cc["magics"]
 
     def cls_of(m):
         return "DefaultRecordBatch" if m >= 2 else "LegacyRecordBatch"
-    if got is not None:
-        batches = got["batches"]
-        wrong = []
-        for k, b in enumerate(batches[:len(magics)]):
-            pa = _parsed_as(b, got["error"] if k == len(batches) - 1 else None)
-            if pa and pa != cls_of(magics[k]):
-                wrong.append((k, pa))
-        if wrong:
-            if all(pa == cls_of(magics[0]) for _k, pa in wrong):
-                return f"memoryrecords:{dec}:batch_parsed_with_first_batch_magic"
-            return f"memoryrecords:{dec}:batch_parsed_as_wrong_format"
     if died:
-        if len(set(cls_of(m) for m in magics)) > 1:
+        if len(set(magics)) > 1:
             return f"memoryrecords:{dec}:crash_on_mixed_magic_concatenation"
         return f"memoryrecords:{dec}:crash_on_concatenation"
+    ks = [d[2] for d in diffs if d[2] is not None]
     first = diffs[0][0] if diffs else "unknown"
+    if ks:
+        k = min(ks)
+        if k < len(magics) and magics[k] != magics[0]:
+            batches = got["batches"]
+            pa = _parsed_as(batches[k], got["error"] if k == len(batches) - 1 else None) if k < len(batches) else None
+            if pa is None or pa == cls_of(magics[0]) or cls_of(magics[k]) == cls_of(magics[0]):
+                return f"memoryrecords:{dec}:batch_decoded_with_first_batch_magic"
+            return f"memoryrecords:{dec}:batch_parsed_as_wrong_format"
     if first.startswith("tail_exception") or first in ("tail_state",):
         return f"memoryrecords:{dec}:trailing_partial:{first}"
-    scope = "mixed_magic" if len(set(cls_of(m) for m in magics)) > 1 else "same_format"
+    scope = "mixed_magic" if len(set(magics)) > 1 else "same_magic"
     return f"memoryrecords:{dec}:concat_{scope}:{first}"
 
 
